@@ -28,8 +28,8 @@ type RaceCase struct {
 	Iters     int  `json:"iters"`
 	NOld      int  `json:"nold"`
 	NNew      int  `json:"nnew"`
-	SpinU     int  `json:"spinu"` // busy-wait before Unsubscribe (varied per iteration)
-	SpinS     int  `json:"spins"` // busy-wait before Subscribe (varied per iteration)
+	SpinU     int  `json:"spinu"`               // busy-wait before Unsubscribe (varied per iteration)
+	SpinS     int  `json:"spins"`               // busy-wait before Subscribe (varied per iteration)
 	PubDuring bool `json:"pubduring,omitempty"` // a third party publishes while the race runs
 	SameActor bool `json:"sameactor,omitempty"` // the first new subscriber is the first old one (reconnect)
 	Workers   int  `json:"workers"`
@@ -319,6 +319,7 @@ func TestC17UnsubSubRace(t *testing.T) {
 		col.Flush(true)
 	}()
 	gen := genRace()
+	evals := 0
 	races, overlaps := 0, 0
 	rapid.Check(t, func(rt *rapid.T) {
 		rc := gen.Draw(rt, "case")
@@ -354,6 +355,9 @@ func TestC17UnsubSubRace(t *testing.T) {
 		col.Record(h, ov > 0 && fail == nil, cl, func() any {
 			return map[string]any{"case": rc, "iterations_with_overlapping_unsubscribe_and_subscribe": ov}
 		})
+		if evals++; evals%3 == 0 {
+			col.Flush(false) // keep the shard file fresh: the process may be killed by a crash in the code under test
+		}
 		if fail != nil {
 			if best == nil {
 				c := rc
